@@ -30,7 +30,7 @@ ASSUMPTIONS = [
 ]
 REQUIRED_COUNTERS = ["runs", "calls.concurrent", "overlapping_pairs", "yields_injected", "lines_seen",
                      "threads.2", "threads.4", "threads.8", "shape.shared_node", "shape.t.Object",
-                     "trees.parsed", "quiescence.tree_unchanged", "calls.accepted", "calls.rejected", "runs.cold_tree", "cold_process.calls", "format_runs.calls"]
+                     "trees.parsed", "quiescence.tree_unchanged", "calls.accepted", "calls.rejected", "runs.cold_tree", "cold_process.calls", "format_runs.calls", "numeric_runs.calls"]
 
 ANCHORS = [
     "statham.schema.property:_Property.bind",
@@ -309,6 +309,44 @@ def format_runs(ctx, sut, fpm, injector):
                     return
 
 
+def numeric_runs(ctx, sut, fpm, injector):
+    """Threads validating numbers at the edges of the float range (where validators fall back to exact
+    or decimal arithmetic, whose settings - e.g. the decimal context - are per thread)."""
+    rng = ctx.rng
+    pool = [1e308, -1e308, 1.7976931348623157e308, 1e300, 2.0 ** 1000, 5e-324, 10 ** 400, 2 ** 53 + 1, 10 ** 30 + 1,
+            0.5, 3, 7.5, 1e22, 0.1, 123456789.125]
+    element = sut.Element(properties={
+        "half": sut.Property(sut.Number(multipleOf=0.5)), "tenth": sut.Property(sut.Element(multipleOf=0.1)),
+        "odd": sut.Property(sut.Number(multipleOf=1.5, maximum=10 ** 400)),
+        "tiny": sut.Property(sut.Element(multipleOf=5e-324)), "seven": sut.Property(sut.Integer(multipleOf=7))})
+    names = ["half", "tenth", "odd", "tiny", "seven"]
+    for _ in range(2):
+        nthreads = rng.choice([3, 6])
+        lists = [[{rng.choice(names): rng.choice(pool), rng.choice(names): rng.choice(pool)} for _ in range(14)]
+                 for _ in range(nthreads)]
+        base = [sequential(sut, fpm, element, lst) for lst in lists]
+        records, errors, stuck = concurrent(sut, fpm, element, lists, injector, 0.05)
+        again = [sequential(sut, fpm, element, lst) for lst in lists]
+        if stuck or errors:
+            ctx.inconclusive_reason("numeric run: threads stuck or harness error " + str(errors[:1]))
+            return
+        ctx.count("numeric_runs")
+        if base != again:
+            ctx.witness("sequential_baseline_unstable", {"numeric_run": True, "lists": [lst[:4] for lst in lists]},
+                        "sequential validation of extreme numbers differs before and after the concurrent phase")
+            return
+        for tid, recs in enumerate(records):
+            for pos, (_s, _e, outcome, fp) in enumerate(recs):
+                ctx.evaluation()
+                ctx.count("numeric_runs.calls")
+                want = base[tid][pos]
+                if outcome != want[0] or (outcome == "ok" and fp != want[1]):
+                    ctx.witness("concurrent_differs_from_sequential",
+                                {"numeric_run": True, "threads": nthreads, "value": lists[tid][pos]},
+                                f"thread {tid} call {pos}: concurrent -> {outcome}; alone (main thread) -> {want[0]}")
+                    return
+
+
 def run_shard(ctx):
     from vlib import fingerprint as fpm  # pylint: disable=import-outside-toplevel
     from vlib import monitors, sut  # pylint: disable=import-outside-toplevel
@@ -319,6 +357,7 @@ def run_shard(ctx):
     injector.start()
     try:
         format_runs(ctx, sut, fpm, injector)
+        numeric_runs(ctx, sut, fpm, injector)
         for idx in range(ctx.params["runs"]):
             one_run(ctx, sut, fpm, monitors, injector, ctx.rng, idx)
     finally:
@@ -335,6 +374,11 @@ def replay(case, ctx):
     injector = monitors.YieldInjector(0.0, "replay")
     injector.start()
     try:
+        if case.get("numeric_run") or case.get("format_run"):
+            # these scenarios use fixed elements and pools: run them again (several times)
+            for _ in range(10):
+                (numeric_runs if case.get("numeric_run") else format_runs)(ctx, sut, fpm, injector)
+            return
         spec = case.get("spec")
         element = gen_dsl.build(spec) if spec else sut.parse_direct(case["schema"])
         lists = [lst * 4 for lst in case["lists"]]
